@@ -15,7 +15,7 @@ PROPERTY = "C03"
 LEVEL = "exploration"
 RULE = (
     "a LASFile is built through the public API; one section (~Version extras, ~Well, ~Curves, ~Parameter) receives a "
-    "generated item list: every single item of the product mnemonic(7) x unit(9) x value(13) x description(6) allowed "
+    "generated item list: every single item of the product mnemonic(7) x unit(9) x value(14) x description(6) allowed "
     "by the statement's conformance clause, every ordered pair over a 36-kind palette (so each kind is in turn the "
     "widest of its section and next to empty-unit/empty-value neighbours), thorough: every ordered triple over a "
     "12-kind palette; ~Other variants; written as 1.2 and 2.0, read back with mnemonic_case preserve/upper/lower, and the re-read object written and read once more (same version and case); "
@@ -32,7 +32,7 @@ ASSUMPTIONS = [
 
 MNEMS = ["A", "LONGMNEMONIC12", "A B", "Å1", "", "<dup>", "NULL"]
 UNITS = ["", "m", "K/M3", "hh:mm", "ft.lbf", "°C", "LONGUNIT123", "1/32", "10^3"]
-VALUES = ["", "x", "a b", "it's", "(b) c", "[b]", 12, -1.5, "1e3", 35.5, 7, "a value text 25 chars long", "rev 4,1-b"]
+VALUES = ["", "x", "a b", "it's", "(b) c", "[b]", 12, -1.5, "1e3", 35.5, 7, "a value text 25 chars long", "rev 4,1-b", ("a remark of ninety characters " * 4)[:90].strip()]
 DESCRS = ["", "d", "a b", "(x) y", "2 d", "a thirty character description.."[:30]]
 SECTIONS = ["Version", "Well", "Curves", "Parameter"]
 OTHERS = ["", "one line of text", "two lines\n\nwith an inner blank line", "#starts with hash\nsecond"]
